@@ -95,7 +95,31 @@ def cisco_family(name, model, pfx, block, swtrunk):
     return Family(name, model, build, lex, ",")
 
 
+def huawei_batch_blocks():
+    """global VLAN database: `vlan batch` lines plus `vlan N` blocks with options; the device's VLAN set is the union of both"""
+    def build(lines, blocks=()):
+        rows = [("vlan batch " + ln, od()) for ln in lines]
+        rows += [("vlan %d" % n, od([("name v%d" % n, od())])) for n in blocks]
+        return od(rows)
+
+    def lex(path):
+        c = path[0]
+        if len(path) > 1:
+            return None                      # options inside a vlan block do not change the VLAN set
+        m = re.fullmatch(r"(undo )?vlan batch ([\d to]+)", c)
+        if m:
+            return {"op": "del" if m.group(1) else "add", "toks": lex_ranges(m.group(2))}
+        m = re.fullmatch(r"(undo )?vlan (\d+)", c)
+        if m:
+            return {"op": "del" if m.group(1) else "add", "toks": [int(m.group(2))]}
+        return {"op": "other", "toks": [], "text": c}
+    f = Family("huawei vlan batch + vlan blocks (vlan_diff)", "Huawei CE6870", build, lex, " ")
+    f.blocks = True
+    return f
+
+
 FAMILIES = [
+    huawei_batch_blocks(),
     huawei_family("huawei trunk allow-pass (multi_all)", "port trunk allow-pass vlan", "interface if1", ("port link-type trunk",)),
     huawei_family("huawei hybrid tagged (multi_all)", "port hybrid tagged vlan", "interface if1", ("port link-type hybrid",)),
     huawei_family("huawei hybrid untagged (multi_all)", "port hybrid untagged vlan", "interface if1", ("port link-type hybrid",)),
@@ -142,7 +166,13 @@ def run(ctx):
             return lib.cisco_collapse_vlandb(S, not catalyst)
 
         def observe(tag, so, sn, lo, ln):
-            old, new = fam.build([fam.sep.join(x) for x in lo]), fam.build([fam.sep.join(x) for x in ln])
+            if getattr(fam, "blocks", False):
+                # some VLANs of each side additionally have a `vlan N` block with options
+                bo = sorted(rnd.sample(sorted(so), rnd.randint(0, min(2, len(so))))) if so else []
+                bn = sorted(rnd.sample(sorted(sn), rnd.randint(0, min(2, len(sn))))) if sn else []
+                old, new = fam.build([fam.sep.join(x) for x in lo], bo), fam.build([fam.sep.join(x) for x in ln], bn)
+            else:
+                old, new = fam.build([fam.sep.join(x) for x in lo]), fam.build([fam.sep.join(x) for x in ln])
             rec = {"id": "%s-%d" % (tag, len(recs)), "kind": "patch", "family": fam.name, "old": [lex_ranges(fam.sep.join(x)) for x in lo],
                    "new": [lex_ranges(fam.sep.join(x)) for x in ln]}
             try:
